@@ -694,6 +694,110 @@ def move_family():
     return n, viols
 
 
+def bottom_up_family(maxdepth):
+    """trees up to `maxdepth` maps deep that are put together in EVERY order
+    (bottom-up, top-down, middle-out), with and without looking at the keys
+    in between, and populated sub-trees that are moved to another place:
+    every parameter stays addressable by the dotted key of where it is now"""
+    from pydsol.core.parameters import InputParameterMap, InputParameterInt
+    n = 0
+    viols = []
+    MK = ["a", "b", "c", "d", "e"]
+
+    def expect_keys(objs, parent_of):
+        out = {}
+        for o in objs:
+            path = [o.key]
+            q = o
+            while id(q) in parent_of:
+                q = parent_of[id(q)]
+                path.append(q.key)
+            out[id(o)] = ".".join(reversed(path))
+        return out
+    for D in range(1, maxdepth + 1):
+        for perm in itertools.permutations(range(D + 1)):
+            for look in (True, False):
+                n += 1
+                model = new_model()
+                root = model.input_parameters
+                maps = [InputParameterMap(MK[i], "n", 1) for i in range(D)]
+                side = [InputParameterInt("s", "n", 3, 1, parent=m,
+                                          min_value=0, max_value=10)
+                        for m in maps]
+                leaf = InputParameterInt("n", "n", 3, 1, min_value=0,
+                                         max_value=10)
+                chain = [root] + maps + [leaf]
+                objs = maps + side + [leaf]
+                parent_of = {id(s_): m for s_, m in zip(side, maps)}
+                bad = None
+                try:
+                    for e in perm:
+                        chain[e].add(chain[e + 1])
+                        parent_of[id(chain[e + 1])] = chain[e]
+                        if look:
+                            want = expect_keys(objs, parent_of)
+                            for o in objs:
+                                got = o.extended_key()
+                                str(o)
+                                if got != want[id(o)]:
+                                    bad = ("extended-key-while-building",
+                                           got, want[id(o)])
+                    want = expect_keys(objs, parent_of)
+                    for o in objs:
+                        got = o.extended_key()
+                        if got != want[id(o)] and bad is None:
+                            bad = ("extended-key", got, want[id(o)])
+                        dotted = want[id(o)][len("root."):]
+                        if root.get(dotted) is not o and bad is None:
+                            bad = ("get-by-extended-key", dotted)
+                        if model.get_parameter(dotted) != o.value and \
+                                o.key in ("s", "n") and bad is None:
+                            bad = ("model-get", dotted)
+                    # move the populated top map under a new map, then the
+                    # deepest map straight under the root
+                    other = InputParameterMap("other", "n", 1, parent=root)
+                    got_obj = root.remove(MK[0])
+                    del parent_of[id(maps[0])]
+                    if got_obj is not maps[0] and bad is None:
+                        bad = ("remove-returned-other-object",)
+                    if look:
+                        # (what a parameter that is in no tree calls itself
+                        # is not stated anywhere; only looked at)
+                        for o in objs:
+                            o.extended_key()
+                    other.add(maps[0])
+                    parent_of[id(maps[0])] = other
+                    parent_of[id(other)] = root
+                    if D >= 2:
+                        maps[-2].remove(maps[-1].key)
+                        root.add(maps[-1])
+                        parent_of[id(maps[-1])] = root
+                    want = expect_keys(objs, parent_of)
+                    for o in objs:
+                        got = o.extended_key()
+                        if got != want[id(o)] and bad is None:
+                            bad = ("extended-key-after-move", got,
+                                   want[id(o)])
+                        dotted = want[id(o)][len("root."):]
+                        try:
+                            if root.get(dotted) is not o and bad is None:
+                                bad = ("get-by-extended-key-after-move",
+                                       dotted)
+                        except Exception as ex:  # noqa
+                            if bad is None:
+                                bad = ("get-after-move-raised", dotted,
+                                       type(ex).__name__)
+                    # removable by the dotted key
+                    lk = want[id(leaf)][len("root."):]
+                    if root.remove(lk) is not leaf and bad is None:
+                        bad = ("remove-by-extended-key", lk)
+                except Exception as ex:  # noqa
+                    bad = ("family-raised", type(ex).__name__, str(ex)[:80])
+                if bad:
+                    viols.append(((D, list(perm), look), bad))
+    return n, viols
+
+
 def e2_bfs(depth, cap):
     seen = {r_canon(RNode("root", "map", 1)): ()}
     frontier = collections.deque([()])
@@ -758,6 +862,17 @@ def run(ctx):
                       rank=len(h))
     ctx.part("E2 take-out / put-back histories (length 4-7)", histories=nm,
              violations=len(mviols))
+    MD = 4 if quick else 5
+    nb, bviols = bottom_up_family(MD)
+    for case, b in bviols[:20]:
+        ctx.violation("C18:tree:assembly:%s" % b[0],
+                      "tree of %d nested maps put together in the order %s "
+                      "(keys looked at in between: %s): %s" % (
+                          case[0], case[1], case[2], b),
+                      {"part": "assembly", "maxdepth": MD}, rank=case[0])
+    ctx.part("E2 trees of up to %d nested maps assembled in every order, "
+             "populated sub-trees moved" % MD, assemblies=nb,
+             violations=len(bviols))
     if capped:
         ctx.cap("E2 state cap hit")
     ctx.part("E2 tree BFS", states=len(seen), transitions=trans,
@@ -796,6 +911,8 @@ def replay(data):
     if data.get("part") == "E3":
         n, bad = e3_constructors()
         return bad[:3] or None
+    if data.get("part") == "assembly":
+        return bottom_up_family(data["maxdepth"])[1][:3] or None
     out = []
     for k in spec():
         for ro in (False, True):
